@@ -122,10 +122,22 @@ func VerifC12_Weighted(cs int) {
 		s.Options.IndividualWeight, s.Options.ParentsWeight, s.Options.SpousesWeight = wi, wp, ws
 		s.Options.ChildrenWeight = 1 - (wi + wp + ws)
 	}
+	if cs == 2 {
+		// weights on a grid of quarters (exact in binary64, zero weights included), by choice
+		VsClass("grid-weights")
+		qi, qp, qs := VsChoose("qi", 5), VsChoose("qp", 5), VsChoose("qs", 5)
+		VsAssume(qi+qp+qs <= 4)
+		s.Options.IndividualWeight, s.Options.ParentsWeight, s.Options.SpousesWeight = float64(qi)/4, float64(qp)/4, float64(qs)/4
+		s.Options.ChildrenWeight = float64(4-qi-qp-qs) / 4
+	}
 	w := s.WeightedSimilarity()
 	VsObserve(w)
 	VsReach("weighted-computed")
 	VsAssert("weighted-similarity-not-negative", 0 <= w)
+	// first with a margin: a counterexample to the exact bound below sits on the boundary of the rounding
+	// slack and need not reproduce in binary64; one to this line does (a failed assertion is assumed to
+	// hold on the rest of the path, so the weaker one comes first)
+	VsAssert("weighted-similarity-at-most-one-and-a-hundredth", w <= 1.01)
 	VsAssert("weighted-similarity-at-most-one", w <= 1.0000000001) // 1 + rounding slack of the relaxation
 	all1 := NewSurroundingSimilarity(1, 1, 1, 1)
 	VsAssert("weighted-similarity-of-ones-with-default-weights-is-at-most-one", all1.WeightedSimilarity() <= 1)
